@@ -30,11 +30,19 @@ def harnesses(tier, seed):
                 for k in (INTERESTING3[ty][:2] if ty != "FLF" else [(1, 0, 1)]):
                     hs.append(collect_harness("c07", "collect_x", ty, "slice", 3, 2, 2, owners, k))
             hs.append(collect_harness("c07", "collect_x", ty, "slice", 2, 1, 1, None, cvs[-1]))
+            # fewer chunks than workers: one chunk of 2, held by the first or by the last worker
+            for owners in ([0, 0], [1, 1]):
+                hs.append(collect_harness("c07", "collect_x", ty, "slice", 2, 2, 2, owners, (1, 1)))
         for owners in owner_tables(2, 2, 1):
             hs.append(collect_harness("c07", "collect_x", "M", "slice", 2, 2, 1, owners, (1, 1)))
+        for owners in ([0, 0], [1, 1]):
+            hs.append(collect_harness("c07", "collect_x", "M", "slice", 2, 2, 2, owners, (1, 1)))
+        # three workers, two chunks: the last-spawned worker holds one of them
+        hs.append(collect_harness("c07", "collect_x", "MF", "slice", 3, 3, 2, [2, 2, 0], (1, 1, 1), obs=1))
+        hs.append(collect_harness("c07", "collect_x", "MF", "slice", 3, 3, 2, [0, 0, 2], (1, 0, 1), obs=1))
     else:
         for ty in ("M", "F", "MF", "FM", "FMF", "FL", "FLF"):
-            for (n, t, c) in ((3, 2, 1), (3, 2, 2), (3, 3, 1)):
+            for (n, t, c) in ((3, 2, 1), (3, 2, 2), (3, 3, 1), (2, 2, 2), (3, 3, 2)):
                 cvs = count_vectors(ty, n)
                 for owners in owner_tables(n, t, c):
                     for k in cvs:
